@@ -30,7 +30,7 @@ CHECKS = {
          "DESIGN.md §5 C11"),
  "C16": ("mc-sem", "model_checking",
          "exhaustive input/history enumeration re-executed under an enumerated set of process hash seeds (LD_PRELOAD getrandom shim, single-threaded workers) and independent in-process rebuilds; SHA-256 equality",
-         "Inputs: every state of bounded E1 explorations over the C06, C03 and C02 universes, histories that define base types after their dependants and create many same-rank nodes, every .wac file of the repository's test and example directories (parse, print, discover, resolve with the neighbouring packages, encode, rendered diagnostics), the two-position document family of C17 and multi-fault documents (several faults of one class in one document). Each input is processed twice per process (fresh hash maps) in 8 (quick) / 32 (thorough) worker processes whose std hash seed is an explicit input; encoded bytes in both dependency modes, printed text, rendered diagnostics, imports() listings and clone-vs-original encodings must be identical over all executions.",
+         "Inputs: every state of bounded E1 explorations over the C06, C03 and C02 universes, histories that define base types after their dependants and create many same-rank nodes, slot-reuse histories (a package owning 3-5 nodes is unregistered or its nodes are removed one by one, then as many independent nodes are created), every .wac file of the repository's test and example directories (parse, print, discover, resolve with the neighbouring packages, encode, rendered diagnostics), the two-position document family of C17 and multi-fault documents (several faults of one class in one document). Each input is processed twice per process (fresh hash maps) in 8 (quick) / 32 (thorough) worker processes whose std hash seed is an explicit input; encoded bytes in both dependency modes, printed text, rendered diagnostics, imports() listings and clone-vs-original encodings must be identical over all executions.",
          "The input/history dimension is exhaustive at the stated bounds; the hash-seed dimension is a deterministic, replayable enumeration of seeds, not an order-coverage argument (reported exhaustive=false). std HashMap keys come from getrandom (shimmed; effectiveness asserted by a probe each run); hashbrown maps inside wasmparser are assumed not to influence output.",
          "DESIGN.md §5 C16, §4 E8"),
  "C17": ("mc-sem", "exploration",
